@@ -87,7 +87,7 @@ def prec_queries(tier):
     qs = []
     kmax = 4 if tier == 'quick' else 5
     def PQ(name, entry, d, stubs, b, rb, **kw):
-        qs.append(Query(name, 'C04_prec.cpp', entry, d, bounds=b, rec_bounds=rb, default_rec=2, stubs=stubs, cflags=PRIV, mem_gb=8, timeout=900, replay='none', **kw))
+        qs.append(Query(name, 'C04_prec.cpp', entry, d, bounds=b, rec_bounds=rb, default_rec=2, stubs=stubs, cflags=PRIV, mem_gb=8, timeout=900, replay='none', extra_cbmc=['--object-bits', '11'], **kw))
     for k in range(1, kmax + 1):
         d = {'K': k, 'VB': 2}
         b = {'pick_list|build.*|h_.*': k + 1, 'climb_.*|ambiguous': k + 1, 'evaluate': max(k, 2), 'arith': 10,
